@@ -191,14 +191,33 @@ func TestWorker(t *testing.T) {
 			sum.Probes["runs_with:fault:cpu_stall"]++
 		}
 		if r.H != nil {
+			inRun := map[string]bool{}
 			for _, e := range r.H.Events {
-				if e.Kind == "fault" {
-					kind := e.Info
+				kind := ""
+				switch {
+				case e.Kind == "fault":
+					kind = e.Info
 					if j := strings.Index(kind, ":"); j > 0 {
 						kind = kind[:j]
 					}
-					sum.Probes["fault:"+kind]++
+				case e.Kind == "tgt.probe" && e.Info != "ok":
+					kind = "probe-" + e.Info
+				case e.Kind == "req.abort" || e.Kind == "req.upabort":
+					kind = "client-abort"
+				case e.Kind == "net.refused":
+					kind = "connection-refused"
 				}
+				if kind != "" {
+					sum.Probes["fault:"+kind]++
+					inRun[kind] = true
+				}
+			}
+			for k := range inRun {
+				sum.Probes["runs_with:fault:"+k]++
+			}
+			if len(r.W.Crashes) > 0 {
+				sum.Probes["fault:crash-point-copy"] += len(r.W.Crashes)
+				sum.Probes["runs_with:fault:crash-point-copy"]++
 			}
 		}
 		SwitchPairs(r.Trace, sum.Switches)
